@@ -138,14 +138,15 @@ func (r *VerifRig) Open(filename string, start string, savedOffset int64) (*Veri
 	return &VerifJob{job: job}, nil
 }
 
-// Notify is a write notification for the file of the job (refreshFile -> checkFileWasTruncated ->
-// tryResumeJobAndUnlock). The job must be done (WaitDone returned true).
-func (r *VerifRig) Notify(j *VerifJob) error {
+// Notify is a notification for the file of the job: processNotification's refreshFile with isWrite (write event:
+// checkFileWasTruncated re-reads the fd position, then tryResumeJobAndUnlock) or without (create/rename event:
+// tryResumeJobAndUnlock only). The job must be done (WaitDone returned true).
+func (r *VerifRig) Notify(j *VerifJob, isWrite bool) error {
 	stat, err := os.Stat(j.job.filename)
 	if err != nil {
 		return err
 	}
-	r.jp.refreshFile(stat, j.job.filename, "", true)
+	r.jp.refreshFile(stat, j.job.filename, "", isWrite)
 	return nil
 }
 
